@@ -126,7 +126,9 @@ def flushRender (beh : Id → Rect → List DrawOp) (st : St) (t : Tree) : Res (
   if t.root.needsExpose then
     let root ← get t 0
     let rb := RB.new root.rect.lines root.rect.cols
-    let s ← exposeRects beh (rendered t) st.pens (t.wins.size + 1) ⟨0, 0, root.rect.lines, root.rect.cols⟩ t.root.damage (rb, [])
+    -- `if(!root_window->is_visible) continue;` at the head of the loop body: a hidden root renders nothing
+    let rects := if root.isVisible then t.root.damage else []
+    let s ← exposeRects beh (rendered t) st.pens (t.wins.size + 1) ⟨0, 0, root.rect.lines, root.rect.cols⟩ rects (rb, [])
     pure ({ st with tree := rendered t, screen := s.1.flushToGrid st.screen }, s.2)
   else
     pure ({ st with tree := { t with root := { t.root with needsRestore := false } } }, [])
